@@ -98,8 +98,14 @@ UNIT = {
                    'replace': 'hoist_get_is_ws(self.buf, pos)'}]},
   'Lexer::is_delimiter': {'kind': 'fn', 'file': F, 'container': LX, 'name': 'is_delimiter', 'props': ['C03', 'C01'],
      'ensures': [('delim_at', 'r == (pos < self.buf@.len() && is_delim(self.buf@[pos as int]))')],
-     'rewrites': [{'rule': 'R7', 'find': 'self.buf.get(pos).map(|b| b"()<>[]{}/%".contains(b)).unwrap_or(false)',
-                   'replace': 'hoist_get_is_delim(self.buf, pos)'}]},
+     # R7 by shape: only `<buf>.get(<pos>).map(|x| <set>.contains(x)).unwrap_or(false)` is hoisted; the byte set itself stays
+     # under proof: the byte-string literal (opaque to Verus) is re-spelled as the array of its bytes, `b"()"` -> `[b'(', b')', ]`
+     # (marker « ... » around the literal's content, every (escaped) character inside it -> a byte literal, markers dropped).
+     'rewrites': [{'rule': 'R7', 'regex': r'([\w.]+)\.get\((\w+)\)\s*\.map\(\|\s*&?(\w+)\s*\|\s*b"((?:[^"\\]|\\.)*)"\.contains\(&?\3\)\)\s*\.unwrap_or\(false\)',
+                   'replace': r'hoist_get_in_set(\1, \2, &[«\4»])'},
+                  {'rule': 'R7', 'regex': r'(\\.|[^\\«»])(?=(?:\\.|[^\\«»])*»)', 'replace': r"b'\1', ", 'count': '*'},
+                  {'rule': 'R7', 'regex': r'[«»]', 'replace': '', 'count': 2},
+                  {'rule': 'R1', 'regex': r'\A\s*\{', 'replace': '{ proof { reveal_with_fuel(in_set, 24); }'}]},
   'Lexer::advance_pos': {'kind': 'fn', 'file': F, 'container': LX, 'name': 'advance_pos', 'props': ['C01', 'C03'],
      'ensures': [('advance_ok', 'r matches Ok(p) ==> p == pos + 1 && pos < self.buf@.len()'),
                  ('advance_eof', 'r is Err ==> pos >= self.buf@.len() && r matches Err(PdfError::EOF)')]},
